@@ -714,6 +714,30 @@ def parse_lifetimes():
     return facts
 
 
+# ------------------------------------------------------------------ ScoreState conversions (C12 / C04)
+
+def parse_score_conv():
+    """the eight `impl From<A> for B` between ScoreState and the mode states: field -> source field or 0"""
+    nc = strip_comments(read("src/any/score_state.rs"))
+    rows = []
+    for m in re.finditer(r"impl From<(\w+)> for (\w+) \{\s*fn from\(state: \w+\) -> Self \{\s*Self \{(.*?)\}\s*\}\s*\}", nc, flags=re.S):
+        src_t, dst_t, body = m.group(1), m.group(2), m.group(3)
+        fields = []
+        for part in body.split(","):
+            part = part.strip()
+            if not part:
+                continue
+            fm = re.match(r"(\w+)\s*:\s*(.+)$", part, flags=re.S)
+            if not fm:
+                fields.append((part, "?" + part))
+                continue
+            dst, expr = fm.group(1), norm(fm.group(2))
+            sm = re.match(r"state\.(\w+)$", expr)
+            fields.append((dst, sm.group(1) if sm else ("0" if expr == "0" else "?" + expr)))
+        rows.append(f"({coq_str(src_t)}, {coq_str(dst_t)}, {coq_list(['(' + coq_str(d) + ', ' + coq_str(e) + ')' for d, e in fields])})")
+    return rows
+
+
 # ------------------------------------------------------------------ bpm comparator (C01)
 
 def parse_bpm_facts():
@@ -743,6 +767,7 @@ def generate():
     effects, unsafes, features = parse_effects()
     lifetimes = parse_lifetimes()
     bpm_facts = parse_bpm_facts()
+    score_conv = parse_score_conv()
     L = []
     A = L.append
     A("(* GENERATED by tools/extract.py from the repository's current source - do not edit.")
@@ -807,6 +832,8 @@ def generate():
     A("Definition effect_sites : list (string * string * Z) :=\n  " + coq_list(effects).replace("; (", ";\n   (") + ".")
     A("Definition unsafe_sites : list (string * Z) :=\n  " + coq_list(unsafes).replace("; (", ";\n   (") + ".")
     A("Definition feature_sites : list (string * string) :=\n  " + coq_list(features).replace("; (", ";\n   (") + ".")
+    A("(* `impl From<A> for B` between ScoreState and the four mode states: (A, B, [(field of B, field of A or 0)]) *)")
+    A("Definition score_conv : list (string * string * list (string * string)) :=\n  " + coq_list(score_conv).replace("; (\"", ";\n   (\"") + ".")
     A("(* the comparator of Beatmap::bpm that Model/Bpm.v transcribes *)")
     A("Definition bpm_facts : list (string * bool) :=\n  " + coq_list(bpm_facts).replace("; (", ";\n   (") + ".")
     A("(* facts the ownership argument of C11 rests on, each checked against the current source *)")
